@@ -289,7 +289,9 @@ func TestC17(t *testing.T) {
 				return
 			}
 		}
-		for _, refCodon := range []string{"AAA", "GGG", "CTT"} {
+		// the last three: reference codons that carry an ambiguity code and still translate (K, A, F) - on the reverse strand the
+		// genome holds their complements (Y, N, R)
+		for _, refCodon := range []string{"AAA", "GGG", "CTT", "AAR", "GCN", "TTY"} {
 			for _, strand := range []string{"+", "-"} {
 				for _, format := range []string{"gb", "gff"} {
 					if !yield(c17Case{Kind: "variants-codons", Arg: refCodon + strand + format}) {
